@@ -50,7 +50,7 @@ ConstSetSpace ==
      kws |-> {"none", "values", "values_description", "values_description_superset", "superset", "bogus",
             "values_bogus", "starstar"},
      vals |-> {"ok", "empty", "tuple", "set", "comp", "expr", "mixed", "enumlits", "dup", "name", "nested"},
-     sup |-> {"absent", "empty", "ok", "unknown", "self", "notlist", "attr", "str"}]
+     sup |-> {"absent", "empty", "ok", "unknown", "self", "notlist", "attr", "str", "dup", "dup_apart"}]
 ConstSetDefault ==
     [k |-> "constset", elt |-> "str", callee |-> "right", npos |-> 0, kws |-> "values_description",
      vals |-> "ok", sup |-> "absent"]
@@ -59,7 +59,8 @@ ConstSetDefault ==
 PatternFuncSpace ==
     [k |-> {"patternfunc"},
      form |-> {"direct", "var", "fstring", "fstring_var", "concat", "search", "fullmatch", "compile",
-             "bare_match", "eq_none", "not_re", "callcall", "attrcall", "kwargs", "flags"},
+             "bare_match", "eq_none", "not_re", "callcall", "attrcall", "kwargs", "flags", "stmt_str_mid",
+             "stmt_name_mid", "stmt_fstring_mid", "docstring_first", "two_vars"},
      ret |-> {"bool", "none", "str", "missing", "optional"},
      args |-> {"text", "noargs", "two", "kwonly", "default", "vararg", "untyped", "self"},
      deco |-> {"verification", "missing", "called", "twice", "impl", "unknown", "attr", "callcall"},
@@ -81,14 +82,16 @@ Expressions == {"len_cmp", "cmp_chain", "and_or", "not", "implication", "is_none
                 "str_concat", "list_lit", "dict_lit", "set_lit", "tuple_lit", "starred", "const_true",
                 "const_none", "const_int", "const_str", "const_bytes", "const_ellipsis", "const_complex",
                 "name_unknown", "name_const", "enum_lit", "cmp_str_int", "len_of_int", "len_ge_0",
-                "len_contradiction", "await", "yield_expr", "walrus", "star_kwargs", "index_neg"}
+                "len_contradiction", "await", "yield_expr", "walrus", "star_kwargs", "index_neg", "len_two_args",
+                "len_no_args", "len_kwarg"}
 
 FuncSpace ==
     [k |-> {"func"},
      stmt |-> Statements,
      expr |-> Expressions,
      ret |-> {"bool", "none", "int", "missing", "str_annot"},
-     args |-> {"one", "noargs", "two", "kwonly", "default", "vararg", "untyped", "ourtype", "dup_arg"},
+     args |-> {"one", "noargs", "two", "kwonly", "default", "vararg", "untyped", "ourtype", "dup_arg", "list_two",
+               "list_optional_two"},
      deco |-> {"verification", "missing", "called", "impl", "impl_only", "unknown", "require", "ensure_odd",
              "snapshot"}]
 FuncDefault ==
@@ -113,7 +116,7 @@ ClassSpace ==
     [k |-> {"class"},
      name |-> {"ok", "unicode", "lower", "reserved", "dunder", "duplicate", "keywordish"},
      bases |-> {"dbc", "none", "unknown", "self", "cycle", "kw_metaclass", "call", "attr", "enum_dbc",
-              "two_parents", "prim_and_class", "subscript", "star", "prim_dbc"},
+              "two_parents", "prim_and_class", "subscript", "star", "prim_dbc", "dup_parent", "prim_only"},
      deco |-> {"none", "abstract", "abstract_call", "abstract_arg", "impl", "impl_call", "serialization",
              "serialization_noarg", "serialization_pos", "serialization_int", "serialization_bogus",
              "unknown", "unknown_call", "attr", "callcall", "lambda", "twice", "abstract_impl",
@@ -127,11 +130,13 @@ ClassSpace ==
      ann |-> {"str", "int_list", "optional", "ourtype", "forward_str", "unknown", "list_bare", "optional_bare",
             "list_two", "optional_two", "optional_optional", "list_optional", "set", "dict", "none",
             "union_bar", "callable", "attr", "literal_int", "tuple", "ellipsis_sub", "lambda", "nested_deep",
-            "self_ref", "enum", "cprim", "str_subscript", "str_empty"},
+            "self_ref", "enum", "cprim", "str_subscript", "str_empty", "list_optional_two",
+            "optional_list_two", "list_list_two"},
      ctor |-> {"auto", "missing", "no_self", "extra_arg", "missing_arg", "wrong_type", "default_not_none",
              "optional_no_default", "vararg", "kwarg", "kwonly", "body_pass", "body_stmt", "assign_other",
              "assign_twice", "assign_expr", "super_call", "base_init_pos", "returns_int", "require_ok",
-             "require_odd", "docstring", "async", "lambda_default", "posonly", "dup_arg", "impl_specific"}]
+             "require_odd", "docstring", "async", "lambda_default", "posonly", "dup_arg", "impl_specific", "prim_init_call",
+              "prim_init_only"}]
 ClassDefault ==
     [k |-> "class", name |-> "ok", bases |-> "dbc", deco |-> "none", body |-> "prop", ann |-> "str",
      ctor |-> "auto"]
@@ -145,6 +150,32 @@ EnumSpace ==
      extra |-> {"none", "method", "docstring", "lit_docstring", "pass", "nested", "decorated", "invariant",
               "bad_docstring", "stmt"}]
 EnumDefault == [k |-> "enum", bases |-> "enum", lits |-> "ok", extra |-> "none"]
+
+(* a constrained primitive: @invariant(lambda self: EXPR, "...") class P(<prim>, DBC), in the standard base model *)
+(* or in a bare one (no class invariant and no verification function anywhere in the model)                  *)
+CprimSpace ==
+    [k |-> {"cprim"},
+     prim |-> {"str", "int", "float", "bool", "bytearray"},
+     expr |-> Expressions,
+     base |-> {"std", "bare"}]
+CprimDefault == [k |-> "cprim", prim |-> "str", expr |-> "len_cmp", base |-> "std"]
+
+(* a docstring with an interpreted-text role: :role:`target` at some place of the model *)
+DocRefSpace ==
+    [k |-> {"docref"},
+     role |-> {"class", "attr", "paramref", "constraintref", "const", "py_attr", "unknown", "ref", "none"},
+     target |-> {"name", "dotted2", "dotted3", "dash", "tilde_dot", "bang", "empty", "space", "digit", "call",
+                 "missing_name", "constraint_id"},
+     place |-> {"class", "property", "enum_literal", "module", "constant", "function", "method", "ctor"}]
+DocRefDefault == [k |-> "docref", role |-> "class", target |-> "name", place |-> "class"]
+
+(* layout of the file around the model: what precedes the first line, which failing statement ends the file *)
+LayoutSpace ==
+    [k |-> {"layout"},
+     lead |-> {"none", "space_line", "blank_lines", "comment", "tab_line", "formfeed_line", "spaces_comment",
+               "many_space_lines"},
+     tail |-> {"none", "unknown_stmt", "bad_class", "bad_import", "bad_invariant", "bad_pattern", "no_newline_stmt"}]
+LayoutDefault == [k |-> "layout", lead |-> "none", tail |-> "none"]
 
 (* other top-level statements (each alternative is one deviation from "nothing") *)
 TopStatements ==
@@ -169,7 +200,8 @@ Families ==
     <<[dom |-> ConstPrimSpace, def |-> ConstPrimDefault], [dom |-> ConstSetSpace, def |-> ConstSetDefault],
       [dom |-> PatternFuncSpace, def |-> PatternFuncDefault], [dom |-> FuncSpace, def |-> FuncDefault],
       [dom |-> InvariantSpace, def |-> InvariantDefault], [dom |-> ClassSpace, def |-> ClassDefault],
-      [dom |-> EnumSpace, def |-> EnumDefault]>>
+      [dom |-> EnumSpace, def |-> EnumDefault], [dom |-> CprimSpace, def |-> CprimDefault],
+      [dom |-> DocRefSpace, def |-> DocRefDefault], [dom |-> LayoutSpace, def |-> LayoutDefault]>>
 
 Templates == {Families[i].def : i \in 1..Len(Families)}
 
@@ -182,7 +214,7 @@ Items == IF MaxDev = 1 THEN Items1 ELSE Items2
 (* (DESIGN section 9: "^*", leading "{", "{3,1}", "[]", "[^\U0001F600]" are suspects)           *)
 RegexTokens == <<"^", "$", ".", "*", "+", "?", "{", "}", ",", "1", "3", "[", "[^", "]", "-", "(", ")",
                  "|", "\\", "a", "\\x41", "A", "ASTRAL", "\\d", "\\s", "{3,1}", "{2}", "(?:", "\\U0001F600",
-                 "\\u00e9", "\\b", "\\1">>
+                 "\\u00e9", "\\b", "\\1", "LF", "CR", "FF", "VT", "TAB", "{99999999999}">>
 NTok == Len(RegexTokens)
 TokenSeqs(n) == UNION {[1..m -> 1..NTok] : m \in 0..n}
 
